@@ -4,6 +4,7 @@ import (
 	"fmt"
 	"time"
 
+	"github.com/protolambda/zrnt/eth2/beacon"
 	"github.com/protolambda/zrnt/eth2/beacon/common"
 )
 
@@ -44,6 +45,28 @@ func CheckAttestationSlot(spec *common.Spec, slotAfter func(delta time.Duration)
 		}
 	}
 	return fmt.Errorf("slot %d (epoch %d) is not in the current or previous epoch", slot, epoch)
+}
+
+// checkpointBlockRoot is get_checkpoint_block of the fork-choice spec, for the slot the checkpoint epoch starts at:
+// the given block itself if it is not after targetSlot, otherwise its latest ancestor at or before targetSlot.
+// It walks the parent links of the chain view, at most maxSteps of them.
+// ok is false if an ancestor is not (or no longer) in the chain view.
+func checkpointBlockRoot(ch beacon.Chain, root common.Root, ref beacon.ChainEntry, targetSlot common.Slot, maxSteps uint64) (common.Root, bool) {
+	for i := uint64(0); ref.Step().Slot() > targetSlot; i++ {
+		if i >= maxSteps {
+			return common.Root{}, false
+		}
+		parentRoot, err := ref.ParentRoot()
+		if err != nil {
+			return common.Root{}, false
+		}
+		parentRef, ok := ch.ByBlock(parentRoot)
+		if !ok {
+			return common.Root{}, false
+		}
+		root, ref = parentRoot, parentRef
+	}
+	return root, true
 }
 
 // syncCommitteeForSlot returns the sync committee that signs at the given slot, as in the spec's
